@@ -95,7 +95,10 @@ def run(ctx):
             named = rng.random() < 0.4
             d = os.path.join(wd.path, "c%d" % i)
             os.makedirs(d)
-            data, parts = B.build(pkg)
+            # any well-formed spelling of the parts is inside the domain: comments, processing instructions, CDATA, whitespace
+            sp = B.Spelling(rng=rng, comments=rng.random() < 0.4, pis=rng.random() < 0.3, cdata=rng.random() < 0.3,
+                            whitespace=rng.random() < 0.4, strict=rng.random() < 0.2) if valid else None
+            data, parts = B.build(pkg, sp)
             path = os.path.join(d, "in.docx") if named else None
             if path:
                 with open(path, "wb") as f:
